@@ -18,7 +18,7 @@ STEPS_T = [None, 1, 2, 3, -1, -2, -3]
 
 def axis_keys(n, tier):
     """(key, oracle) pairs for an axis of length n.  oracle is ('int', i),
-    ('err',) or ('slice', [indices])."""
+    ('err',) or ('slice', [indices]).  Axes longer than 4 use a lighter alphabet (tier 'lite')."""
     out = []
     base = list(range(n))
     for k in range(-n - 2, n + 2):
@@ -26,9 +26,11 @@ def axis_keys(n, tier):
             out.append((k, ("int", base[k])))
         except IndexError:
             out.append((k, ("err",)))
-    ext = 2 if tier == "quick" else 3
+    if n > 4:
+        tier = "lite"
+    ext = {"quick": 2, "thorough": 3, "lite": 1}[tier]
     bounds = [None] + list(range(-n - ext, n + ext + 1))
-    steps = STEPS_Q if tier == "quick" else STEPS_T
+    steps = {"quick": STEPS_Q, "thorough": STEPS_T, "lite": [None, 1, -1, 2, -3]}[tier]
     for st in bounds:
         for sp in bounds:
             for step in steps:
@@ -285,6 +287,16 @@ def shards_for(tier):
                     out.append(("coords", tier, kind, h, w))
         for n in range(0, 6):
             out.append(("1d", tier, kind, n))
+        # larger axes with the lighter key alphabet (all pairs of keys still)
+        for (h, w) in ([(5, 6)] if tier == "quick" else [(5, 5), (6, 3), (3, 6), (1, 7), (7, 1), (6, 6), (2, 9)]):
+            if kind == "int" and tier == "quick":
+                continue
+            nk = len(axis_keys(h, tier))
+            for lo in range(0, nk, 60):
+                out.append(("2d", tier, kind, h, w, lo, min(nk, lo + 60)))
+            out.append(("2d-single", tier, kind, h, w))
+        for n in (8, 13):
+            out.append(("1d", tier, kind, n))
         out.append(("reshape", tier, kind))
     return out
 
@@ -322,7 +334,7 @@ def main(tier, seed, only=None):
         tier,
         seed,
         "exploration",
-        "all shapes h,w in 0..4 (1-D n in 0..5), bool and int arrays; keys: every int in [-n-2, n+1], every slice with "
+        "all shapes h,w in 0..4 (1-D n in 0..5) plus 5x6 (thorough: 5x5, 6x3, 3x6, 1x7, 7x1, 6x6, 2x9; 1-D 8 and 13) with a lighter key alphabet, bool and int arrays; keys: every int in [-n-2, n+1], every slice with "
         "start/stop in {None} u [-n-e, n+e] (e=2 quick, 3 thorough) and step in %s; all (row key, column key) pairs; "
         "all coordinate lists of length <= %d over [-h-1,h]x[-w-1,w]; reshape to every (h', w') and flatten. "
         "Oracle: the same index on the Python list of lists (ids row-major).  Non-trivial = distinct cases whose "
